@@ -5,6 +5,7 @@ pub mod c08;
 pub mod c15;
 pub mod c04;
 pub mod c05;
+pub mod c07;
 pub mod c09;
 pub mod c11;
 pub mod c12;
@@ -22,6 +23,7 @@ pub fn dispatch(args: &Args, rep: &Arc<Report>) -> bool {
         "c02" => c02::run(args, rep),
         "c03" => c03::run(args, rep),
         "c05" => c05::run(args, rep),
+        "c07" => c07::run(args, rep),
         "c08" => c08::run(args, rep),
         "c14" => c14::run(args, rep),
         "c15" => c15::run(args, rep),
@@ -30,7 +32,36 @@ pub fn dispatch(args: &Args, rep: &Arc<Report>) -> bool {
         "c11" => c11::run(args, rep),
         "c12" => c12::run(args, rep),
         "c13" => c13::run(args, rep),
+        "dump" => dump(args),
         _ => return false,
     }
     true
+}
+
+
+/// Debug aid: prints the subframe facts of the stream encoded for a replay case.
+fn dump(args: &Args) {
+    let case = ustream::load_replay_case(args.replay.as_ref().expect("dump needs --replay"));
+    let samples = case.input.samples();
+    match crate::subject::encode_bytes(&case, &samples, crate::subject::Mode::St) {
+        Err(e) => println!("encode failed: {}", e.describe()),
+        Ok((_, bytes)) => {
+            println!("{} bytes", bytes.len());
+            match crate::strictflac::parse(&bytes) {
+                Err(e) => println!("strictflac: {e}"),
+                Ok(f) => {
+                    println!("issues: {:?}", f.issues);
+                    for (i, fr) in f.frames.iter().enumerate() {
+                        for (c, sf) in fr.subframes.iter().enumerate() {
+                            println!("frame {i} ch {c} n={} {:?} prec={} shift={} coefs={:?} po={} params={:?} res[..6]={:?}", fr.block_size, sf.kind, sf.precision, sf.shift, sf.coefs, sf.part_order, sf.rice_params, &sf.residuals[..sf.residuals.len().min(6)]);
+                        }
+                    }
+                }
+            }
+            match crate::subject::claxon_decode(&bytes) {
+                Ok(c) => println!("claxon ok, equal to input: {}", c.samples == samples),
+                Err(e) => println!("claxon: {e}"),
+            }
+        }
+    }
 }
